@@ -337,7 +337,9 @@ func (progBldr *ProgBuilder) CodePathOper(elem int) {
 func (progBldr *ProgBuilder) CodeNameTest(name xml.Name) {
 
 	nameTestPush := func(ctx *context) {
-		if ctx.predicateCount > 0 && ctx.predicateEvalPath%2 == 0 {
+		// Only the first path of a predicate is the name of the key: every
+		// later one - an operand function may take several - is a path
+		if ctx.predicateCount > 0 && ctx.predicateEvalPath == 0 {
 			ctx.pushDatum(NewLiteralDatum(name.Local))
 		} else {
 			//fmt.Println(utils.ToXPath(ctx.GetActualPath(),false))
@@ -570,9 +572,9 @@ func (progBldr *ProgBuilder) EvalLocPath(ctx *context) {
 	if ctx.predicateCount > 0 {
 		// we add 1 to predicateEvalPath
 		ctx.predicateEvalPath += 1
-		// and the value of predicateEvalPath is uneven (hence the left side of the assignment [=], since we've already added 1 to predicateEvalPath early)
+		// and the value of predicateEvalPath is 1 (hence the left side of the assignment [=], since we've already added 1 to predicateEvalPath early)
 		// then we skip the resolution for the value
-		if ctx.predicateEvalPath%2 == 1 {
+		if ctx.predicateEvalPath == 1 {
 			return
 		}
 
